@@ -11,6 +11,7 @@ import (
 	"strconv"
 	"strings"
 
+	"gonum.org/v1/gonum/blas/blas64"
 	"gonum.org/v1/gonum/mat"
 	"verif/simio"
 	"verif/simrt"
@@ -45,7 +46,37 @@ func drawDims(t *simrt.Tape) (int, int) {
 func drawDense(c *Ctx) *mat.Dense {
 	t := c.T
 	r, cl := drawDims(t)
-	view := t.Choose(simrt.KWorkload, 3) == 2
+	kind := t.Choose(simrt.KWorkload, 4)
+	view := kind == 2
+	if kind == 3 {
+		// a matrix whose rows are contiguous (Stride == Cols) on a backing
+		// slice longer than Rows*Cols: a grown view, or a raw matrix handed
+		// in by the caller with spare elements after the last row
+		c.Probe("spare_backing_value", 1)
+		var m *mat.Dense
+		if t.Choose(simrt.KWorkload, 2) == 0 && cl > 1 {
+			// growing past the column capacity allocates capRows*cols elements
+			base := mat.NewDense(r+1+t.Choose(simrt.KWorkload, 3), cl-1, nil)
+			m = base.Slice(0, r, 0, cl-1).(*mat.Dense).Grow(0, 1).(*mat.Dense)
+		} else {
+			data := make([]float64, r*cl+1+t.Choose(simrt.KWorkload, 70))
+			for i := range data {
+				data[i] = drawFloat(t)
+			}
+			m = new(mat.Dense)
+			m.SetRawMatrix(blas64.General{Rows: r, Cols: cl, Stride: cl, Data: data})
+		}
+		mr, mc := m.Dims()
+		if raw := m.RawMatrix(); mr != r || mc != cl || raw.Stride != cl || len(raw.Data) <= r*cl {
+			panic(fmt.Sprintf("harness: spare-backing matrix is %dx%d, wanted %dx%d", mr, mc, r, cl))
+		}
+		for i := 0; i < r; i++ {
+			for j := 0; j < cl; j++ {
+				m.Set(i, j, drawFloat(t))
+			}
+		}
+		return m
+	}
 	if !view {
 		m := mat.NewDense(r, cl, nil)
 		for i := 0; i < r; i++ {
@@ -270,7 +301,7 @@ func init() {
 
 func runMatBinary(c *Ctx) *Violation {
 	t := c.T
-	c.Declare("strided_view_value", "read_n>0_with_EOF", "zero_length_read", "rows_cols_product_wrapped_int64", "skipped_documented_large_allocation", "corrupted_header_accepted_wellformed", "framed_values")
+	c.Declare("strided_view_value", "spare_backing_value", "read_n>0_with_EOF", "zero_length_read", "rows_cols_product_wrapped_int64", "skipped_documented_large_allocation", "corrupted_header_accepted_wellformed", "framed_values")
 	var cd *matCodec
 	if t.Choose(simrt.KWorkload, 3) == 2 {
 		n := 1 + t.Choose(simrt.KWorkload, 24)
